@@ -1,7 +1,12 @@
 use crate::base::{MetricEvent, DEFAULT_STATISTIC_MAX_RT};
 use enum_map::EnumMap;
 use std::fmt;
+#[cfg(not(sentinel_verif))]
 use std::sync::atomic::{AtomicU32, AtomicU64, Ordering};
+#[cfg(sentinel_verif)]
+use crate::verif_sync::{AtomicU32, AtomicU64};
+#[cfg(sentinel_verif)]
+use std::sync::atomic::Ordering;
 
 /// use atomic types to ensure metric's internal mutability
 /// otherwise, exclusive Mutex would be necessary on the LeapArray Arc among threads
